@@ -247,6 +247,9 @@ func C02(x *Idx) []V {
 			if !ok {
 				continue
 			}
+			if st.Status == "Restarting" {
+				continue // counted already, relaunch still pending (held in the back-off window)
+			}
 			n := 0
 			apiSeen := false
 			for _, in := range l {
